@@ -382,7 +382,7 @@ void signed_fns()
       std::sort(ps.begin(), ps.end());
       ps.erase(std::unique(ps.begin(), ps.end()), ps.end());
       std::uint64_t const ph = hash_values(ps);
-      std::uint64_t calls = 0;
+      std::uint64_t calls = 0, skipped_definition = 0;
       using iv = fcppt::tuple::object<T, T>;
       for (T const a : ps)
         for (T const b : ps)
@@ -422,6 +422,7 @@ void signed_fns()
               if (!parts_fit)
               {
                 VF_COUNT("skipped/interval_distance/definition-quantity-unrepresentable");
+                ++skipped_definition;
                 continue;
               }
               if (contains)
@@ -439,6 +440,10 @@ void signed_fns()
             }
         }
       vf::count("calls/" + e, calls);
+      if (skipped_definition != 0 && sizeof(T) >= 4)
+        vf::observation(e + ": inputs whose result is representable but where a length named by the documented definition "
+                            "(gap, overlap, part of the outer interval) is not were NOT executed (side condition; e.g. "
+                            "[min,max] and [1,5]: the part length 1-min overflows although the result 5-max fits)");
     }
   }
 }
@@ -1693,7 +1698,12 @@ void io_matrix(std::string const &e, std::vector<std::basic_string<Ch>> const &t
         else
           VF_COUNT("faults/throw/not-reached");
         if (buf.fault_reached() && !cfg.badbit_exceptions && returned)
+        {
           vf::count(std::string("observed/after-throwing-underflow/") + (last_present ? "last-result-present" : "last-result-absent"));
+          if (last_present)
+            vf::observation(e + ": the result was still present although the stream buffer threw from underflow with "
+                                "exceptions() off (observed only; seen when the fault is at position 0: an empty string is returned)");
+        }
       }
       else if (cfg.kind == fault::eof_after)
         vf::count(buf.fault_reached() ? "faults/eof/reached" : "faults/eof/not-reached");
